@@ -1,12 +1,12 @@
 (* Percolator/Props.v — properties C02, C03, C04: the theorems (each closed by [exact] + Print Assumptions) and their
-   non-vacuity Examples, nothing else. Proof scripts: PropsProofs.v and the files it exports; example traces: ExData.v.
+   non-vacuity Examples, nothing else. Proof scripts: ProofsTop.v and the files it exports; example traces: ExData.v.
    Model: System.v (acceptor over the event vocabulary of docs/PERC_EVENTS.md); a trace is any list of
    events; [run evs = Some s] = the acceptor accepts it. Loss = a send without deliver / a deliver
    without reply; duplication, delay, reordering = delivers in any number and order (the commit-point
    request: at most one delivery per send); crash = [ECrash]. [hasm s T] = T's mutations were logged,
    [classic s T] = T never used async commit / 1PC (then no resolve of T can be derived from the
    CheckSecondaryLocks fold: Inv.classic_flags). [F s T FTold] = 1 / 2 / 3 for Commit returning nil / undetermined / error. *)
-From Verif Require Import Percolator.PropsProofs Percolator.ExData.
+From Verif Require Import Percolator.ProofsTop Percolator.ExData.
 From Coq Require Import Sorting.Sorted Permutation.
 
 (* ---------------- C02: crash atomicity (classic 2PC, optimistic and pessimistic prewrite) ---------------- *)
